@@ -111,6 +111,25 @@ Definition aff_mul_el (m : Affine T) (e : PathEl T) : PathEl T := map_el (aff_ap
 Definition aff_mul_path (m : Affine T) (els : list (PathEl T)) : list (PathEl T) :=
   map (aff_mul_el m) els.
 
+(** [Affine::svd] as the tree has it since the repair of the minor radius (commit 7389fc0,
+    proposed_fixes/C10-svd-minor-radius.diff): the major radius as before, the minor one
+    [(|det| / x).min(x)] instead of [sqrt(0.5 * (s1 - s2))], which cancelled. The shared [aff_svd]
+    (Affine.v) is the earlier form; the two are the same function over the reals
+    (C12_svd_variants_agree), not on floats. *)
+Definition aff_svd_det (m : Affine T) : Vec2 T * T :=
+  let a := aa m in let a2 := a * a in
+  let b := ab m in let b2 := b * b in
+  let c := ac m in let c2 := c * c in
+  let d := ad m in let d2 := d * d in
+  let ab_ := a * b in
+  let cd_ := c * d in
+  let angle := fhalf * fatan2 (f2 * (ab_ + cd_)) (a2 - b2 + c2 - d2) in
+  let s1 := a2 + b2 + c2 + d2 in
+  let s2 := fsqrt (fpowi (a2 - b2 + c2 - d2) 2 + fofZ 4 * fpowi (ab_ + cd_) 2) in
+  let x := fsqrt (fhalf * (s1 + s2)) in
+  let y := if x =? f0 then f0 else fmin (fabs (a * d - b * c) / x) x in
+  (mkVec2 x y, angle).
+
 (** ** ellipses (ellipse.rs) *)
 (* private_new: translate(center) * rotate(x_rotation) * scale_non_uniform(|sx|, |sy|), left-associated *)
 Definition ellipse_new (center : Point T) (radii : Vec2 T) (x_rotation : T) : Ellipse T :=
@@ -118,7 +137,7 @@ Definition ellipse_new (center : Point T) (radii : Vec2 T) (x_rotation : T) : El
                      (aff_scale_non_uniform (fabs (vx radii)) (fabs (vy radii)))).
 Definition ellipse_from_affine (m : Affine T) : Ellipse T := mkEllipse m.
 Definition ellipse_center (e : Ellipse T) : Point T := to_point (aff_translation (el_inner e)).
-Definition ellipse_radii_and_rotation (e : Ellipse T) : Vec2 T * T := aff_svd (el_inner e).
+Definition ellipse_radii_and_rotation (e : Ellipse T) : Vec2 T * T := aff_svd_det (el_inner e).   (* self.inner.svd() *)
 (* impl From<Circle> for Ellipse: Ellipse::new(center, Vec2::splat(radius), 0.0) *)
 Definition ellipse_from_circle (c : Circle T) : Ellipse T :=
   ellipse_new (ci_center c) (mkVec2 (ci_radius c) (ci_radius c)) f0.
@@ -180,24 +199,6 @@ Definition aff_mul_arc (m : Affine T) (a : Arc T) : Arc T :=
   let start_angle := fatan2 (vy local * vx radii) (vx local * vy radii) in
   let sweep_angle := if aff_determinant m <? f0 then - arc_sweep_angle a else arc_sweep_angle a in
   mkArc center radii start_angle sweep_angle rotation.
-
-(** [Affine::svd] with the minor radius taken from the determinant
-    (proposed_fixes/C10-svd-minor-radius.diff, another property's repair of the cancellation in
-    [sqrt(0.5 * (s1 - s2))]: [(|det| / x).min(x)]); equal to [aff_svd] over the reals, not on floats. Kept here so that
-    the correspondence can follow whichever of the two the tree implements. *)
-Definition aff_svd_det (m : Affine T) : Vec2 T * T :=
-  let a := aa m in let a2 := a * a in
-  let b := ab m in let b2 := b * b in
-  let c := ac m in let c2 := c * c in
-  let d := ad m in let d2 := d * d in
-  let ab_ := a * b in
-  let cd_ := c * d in
-  let angle := fhalf * fatan2 (f2 * (ab_ + cd_)) (a2 - b2 + c2 - d2) in
-  let s1 := a2 + b2 + c2 + d2 in
-  let s2 := fsqrt (fpowi (a2 - b2 + c2 - d2) 2 + fofZ 4 * fpowi (ab_ + cd_) 2) in
-  let x := fsqrt (fhalf * (s1 + s2)) in
-  let y := if x =? f0 then f0 else fmin (fabs (a * d - b * c) / x) x in
-  (mkVec2 x y, angle).
 
 (** ** translate_scale.rs *)
 Record TranslateScale := mkTS { ts_translation : Vec2 T; ts_scale : T }.
